@@ -50,4 +50,35 @@ def handleCls : List String → String
     | _, _ => "bad-op"
   | _ => "bad-op"
 
+/-- number of multisets of total size `n` when there are `types k` kinds of parts of size `k`
+(unbounded knapsack; `ways[j]` after the parts of size `≤ k` have been admitted) -/
+def multisetCount (types : Nat → Nat) (n : Nat) : Nat :=
+  let addPart (k : Nat) (ways : Array Nat) : Array Nat :=
+    (List.range (n + 1)).foldl (fun w j => if k ≤ j ∧ 0 < k then w.setIfInBounds j (w.getD j 0 + w.getD (j - k) 0) else w) ways
+  let ways := (List.range' 1 n).foldl (fun w k => (List.range (types k)).foldl (fun w _ => addPart k w) w)
+    ((Array.replicate (n + 1) 0).setIfInBounds 0 1)
+  ways.getD n 0
+
+/-- numbers of trees on `k` vertices (OEIS A000055), specification constants -/
+def treeNumbers : List Nat := [1, 1, 1, 1, 2, 3, 6, 11, 23, 47, 106, 235, 551, 1301, 3159, 7741, 19320, 48629, 123867]
+
+/-- `c03big <pred> <n> <m> <place>`: the number of isomorphism classes of graphs on `n` vertices with maximum degree
+≤ 2 (disjoint unions of paths `P_k`, `k ≥ 1`, and cycles `C_k`, `k ≥ 3`), resp. of forests (multisets of trees) -/
+def handleBig : List String → String
+  | [pred, n, _m, _place] =>
+    match n.toNat? with
+    | some n =>
+      if pred = "deg2" then "count=" ++ toString (multisetCount (fun k => if k ≥ 3 then 2 else 1) n)
+      else if pred = "forest" then
+        if n < treeNumbers.length then "count=" ++ toString (multisetCount (fun k => treeNumbers.getD k 0) n)
+        else "bad-op"
+      else "bad-op"
+    | none => "bad-op"
+  | _ => "bad-op"
+
+/-- `c03sub <graph6 of H> <m> <place>`: exactly one graph on `|H|` vertices is an induced subgraph of `H` -/
+def handleSub : List String → String
+  | [_h, _m, _place] => "top=1"
+  | _ => "bad-op"
+
 end Drv.C03
